@@ -290,6 +290,11 @@ def rule_c18(an, res):
                     site = site_of_seg(bodies[0].seg, m) if bodies else site_of_seg(top, m)
                     V(res, prop, 'R-SIB-BODY', cm, m.key(), 'loop body differs from %s: %s' % (single.key(), d[0]), site,
                       'per-element behaviour of %s is not that of %s; %s' % (m.key(), single.key(), d[1]))
+                for lp, s2 in ops.bodiless_iterations(top):
+                    res.ob('R-SIB-BODY', ok=False)
+                    V(res, prop, 'R-SIB-BODY', cm, m.key(), 'a range element is handled without performing the single-key operation',
+                      site_of_seg(s2, m), 'iteration path [%s] of %s never consults the index: its effects %s / outputs are not those of %s'
+                      % (' '.join(s2.valuation()), m.key(), [e.kind for e in s2.state_effects()][:4], single.key()))
                 check_once(res, prop, cm, roles, m, single, top, an)
 
 
@@ -423,6 +428,11 @@ def rule_c01(an, res):
                     for b in ops.find_bodies(top, m):
                         check_bind_update(res, prop, cm, roles, m, b)
                 check_splice_dest(res, prop, cm, roles, m, top)
+                if k in ('INSERT', 'FIND', 'ERASE'):
+                    for lp, s2 in ops.bodiless_iterations(top):
+                        res.ob('R-LOOKUP-PROV', ok=False)
+                        V(res, prop, 'R-LOOKUP-PROV', cm, m.key(), 'a range element is answered / handled without consulting the index for it',
+                          site_of_seg(s2, m), 'iteration path [%s]' % ' '.join(s2.valuation()))
                 if k in ('INSERT', 'FIND', 'ERASE') and not ops.find_bodies(top, m) and not top.loops:
                     res.ob('R-LOOKUP-PROV', ok=False)
                     V(res, prop, 'R-LOOKUP-PROV', cm, m.key(), 'path does not consult the index for its key', site_of_seg(top, m), '')
